@@ -273,6 +273,11 @@ class ListWithAdjustments(object):
       assert self.count_range(begin, end) > 0
       min_key, max_key = self._find_sparse_enough_range(begin, end)
       self._adjust_range(min_key, max_key)
+      # The neighbours may have been adjusted too: compare with their current keys.
+      if index > 0:
+        begin = self._adj_get_key(index - 1)
+      if index < len(self._orig_list):
+        end = self._adj_get_key(index)
       assert is_valid_range(begin, self._insertions.irange(begin, end), end)
 
   def _find_sparse_enough_range(self, begin, end):
